@@ -4,6 +4,7 @@ package userauth
 import (
 	"encoding/binary"
 	"io"
+	"math"
 
 	"github.com/sirupsen/logrus"
 
@@ -42,6 +43,11 @@ func (msg *userAuthInitMsg) toBytes() []byte {
 
 // RequestAuthorization used by client to send username and get server confirmation or denial
 func RequestAuthorization(ch *tubes.Reliable, username string) bool {
+	if len(username) > math.MaxUint16 {
+		// the length prefix has two bytes: a longer name would be framed wrongly
+		logrus.Errorf("C: username of %d bytes is too long for a user auth request", len(username))
+		return false
+	}
 	mess := newUserAuthInitMsg(username).toBytes()
 	if len(mess) == 0 {
 		logrus.Errorf("C: client username empty userauth")
